@@ -82,12 +82,14 @@ class WebsocketSession(object):
             if self._sock is None:
                 log.debug('WebSocket unavailable; data not sent')
                 raise errors.WebSocketUnavailable('not connected')
-            if self.websocket.is_closed:
-                log.debug('WebSocket closed; data not sent')
-                raise errors.WebSocketClosed('data not sent')
+            # Closing is checked first; the flags change from closing to
+            # closed (in that order) without the lock being held.
             if self.websocket.is_closing:
                 log.debug('WebSocket closing; data not sent')
                 raise errors.WebSocketClosing('data not sent')
+            if self.websocket.is_closed:
+                log.debug('WebSocket closed; data not sent')
+                raise errors.WebSocketClosed('data not sent')
             try:
                 self._sock.sendall(data)
             except socket.error as error:
